@@ -1,0 +1,80 @@
+//go:build verif
+
+package ethsecp256k1
+
+// Contracts for the deductive checker in /verif (comment-only; compiled only with -tags verif).
+// C03, key part: what the eth_secp256k1 key types compute. Cryptographic primitives are uninterpreted functions
+// (/verif/specs/c03k/64_keys.spec): the contracts state exactly which primitive is applied to which bytes.
+
+/*@
+// ------------------------------------------------------------------ private key
+// a COPY of the key bytes
+func (PrivKey).Bytes
+    ensures copy: seqeq(result, privKey.Key) && len(result) == len(privKey.Key)
+func (PubKey).Bytes
+    ensures copy: seqeq(result, pubKey.Key) && len(result) == len(pubKey.Key)
+func (PrivKey).Type
+    inline
+func (PubKey).Type
+    inline
+
+// the ecdsa key whose scalar is the key bytes; refused unless they are a valid scalar (32 bytes, 0 < d < N)
+func (PrivKey).ToECDSA
+    ensures ok: (result.1 == nil) == ecdsa_ok(privKey.Key)
+    ensures value: result.1 == nil ==> result.0 != nil && fresh(result.0) && seqeq(priv_bytes(result.0), privKey.Key)
+            && result.0.PublicKey == pub_point(privKey.Key)
+    ensures failed: result.1 != nil ==> result.0 == nil
+
+// GenerateKey: a new key object holding the 32 scalar bytes of a freshly generated secp256k1 key (a valid scalar); the entropy
+// error is passed on with a nil key
+func GenerateKey
+    ensures ok: result.1 == nil ==> result.0 != nil && fresh(result.0) && ecdsa_ok(result.0.Key)
+    ensures failed: result.1 != nil ==> result.0 == nil
+
+// PubKey: nil for an invalid scalar, otherwise a new PubKey object holding the 33-byte compressed public key of the scalar
+func (PrivKey).PubKey
+    let pk = unbox(result, "*github.com/haqq-network/haqq/crypto/ethsecp256k1.PubKey")
+    ensures invalid: !ecdsa_ok(privKey.Key) ==> result == nil
+    ensures valid: ecdsa_ok(privKey.Key) ==> result != nil && typeof(result) == typetag("*github.com/haqq-network/haqq/crypto/ethsecp256k1.PubKey")
+            && pk != nil && fresh(pk) && pk.Key == pub_of(privKey.Key) && len(pk.Key) == 33
+
+// Sign: the 65-byte recoverable signature [R || S || V] of go-ethereum's crypto.Sign under the key's scalar over
+//   - the argument ITSELF when it is exactly 32 bytes long (taken to be a digest already),
+//   - the Keccak-256 digest of the argument for every other length.
+// Errors (nil signature): invalid scalar, or crypto.Sign refuses.
+// NOTE (stated exactly, see report): a 32-byte MESSAGE is therefore signed without hashing, while VerifySignature always hashes.
+func (PrivKey).Sign
+    let digest = ite(len(digestBz) == 32, digestBz, hash_bytes(keccak_one(digestBz)))
+    ensures ok: (result.1 == nil) == (ecdsa_ok(privKey.Key) && sign_ok(digest, privKey.Key))
+    ensures value: result.1 == nil ==> result.0 == sign_of(digest, privKey.Key) && len(result.0) == 65
+    ensures failed: result.1 != nil ==> len(result.0) == 0
+
+// Equals: same key type name and the same key bytes (compared in constant time)
+func (PrivKey).Equals
+    requires nonnil: other != nil
+    ensures def: result == (lpk_type(other) == "eth_secp256k1" && seqeq(privKey.Key, lpk_bytes(other)))
+
+// ------------------------------------------------------------------ public key
+// Address: nil when the key bytes are not a compressed curve point; otherwise the 20 bytes of go-ethereum's address of the
+// point (the last 20 bytes of Keccak-256 of the uncompressed point)
+func (PubKey).Address
+    ensures invalid: !point_ok(pubKey.Key) ==> len(result) == 0 && result == nil
+    ensures valid: point_ok(pubKey.Key) ==> result == addr_bytes(point_address(ec_point(pubKey.Key))) && len(result) == 20
+func (PubKey).Equals
+    requires nonnil: other != nil
+    ensures def: result == (pk_type(other) == "eth_secp256k1" && seqeq(pubKey.Key, pk_bytes(other)))
+
+// amino decoding: only a key of exactly the right size is accepted, and then stored as given; otherwise the key is untouched
+func (*PrivKey).UnmarshalAmino
+    requires nonnil: privKey != nil
+    modifies *privKey
+    ensures ok: (result == nil) == (len(bz) == 32)
+    ensures stored: result == nil ==> privKey.Key == bz
+    ensures failed: result != nil ==> *privKey == old(*privKey)
+func (*PubKey).UnmarshalAmino
+    requires nonnil: pubKey != nil
+    modifies *pubKey
+    ensures ok: (result == nil) == (len(bz) == 33)
+    ensures stored: result == nil ==> pubKey.Key == bz
+    ensures failed: result != nil ==> *pubKey == old(*pubKey)
+@*/
